@@ -164,9 +164,78 @@ def install(eng):
     PURE_FS = ("std::fs::Metadata::len",)
     ERRORCODE = "tftpd::packet::ErrorCode"
 
+    SERVER = "tftpd::server::Server"
+    sfi = {f["name"]: i for i, f in enumerate(prog.adts[SERVER]["variants"][0]["fields"])} if SERVER in prog.adts else {}
+    pk = prog.adts.get(PACKET)
+    kind_of_variant = {}
+    if pk is not None:
+        for i, v in enumerate(pk["variants"]):
+            kind_of_variant[i] = v["name"]
+
+    def find_variant(v, depth=0):
+        """packet variant index mentioned in a value's provenance: a path element ('v', i) right after the
+        Ok payload of the decode result"""
+        if depth > 12:
+            return None
+        if isinstance(v, tuple):
+            for i, x in enumerate(v):
+                if isinstance(x, tuple) and len(x) >= 3 and x[:2] == (("v", 0), 0) and isinstance(x[2], tuple) and len(x[2]) == 2 and x[2][0] == "v":
+                    return x[2][1]
+                r = find_variant(x, depth + 1) if isinstance(x, tuple) else None
+                if r is not None:
+                    return r
+        return None
+
+    def server_field(eng, st, fr, name):
+        i = sfi.get(name)
+        if i is None:
+            return None
+        root = ("P", ("L", fr.id[:1], 1), ())
+        return eng.read(st, root, (i,))
+
     def listener_hook(eng, st, fr, bb, base, args, ev, t):
         if fr.region != "listener":
             return
+        # ---- request kind: the variant of the decoded Packet held by the listener's own frame
+        if len(fr.id) == 1:
+            efid = fr.id
+            body0 = eng.frame_bodies.get(efid)
+            found = set()
+            for root, d_ in st.store.items():
+                if root[0] == "L" and root[1] == efid and isinstance(root[2], int) and body0 is not None and root[2] < len(body0.locals):
+                    tt = prog.types[body0.local_ty(root[2])]
+                    if tt["k"] == "adt" and tt["path"] == PACKET:
+                        dv = d_.get(("$discr",))
+                        c_ = const_of(dv) if dv is not None else None
+                        if c_ is not None:
+                            found.add(prog.variant_by_discr(PACKET, c_))
+            if len(found) == 1:
+                vi = list(found)[0]
+                if vi is not None:
+                    gwrite(eng, st, "kind", ICONST(vi + 1))
+        if (base.startswith(GUARDED_PREFIX) and base not in PURE_FS) or base in GUARDED_EXACT:
+            # ---- access policy (C06): what must be known before this effect, per request kind
+            if base not in ("std::path::Path::exists",):
+                kd = gread_opt(st, "kind")
+                kn = kind_of_variant.get(const_of(kd) - 1) if kd is not None and const_of(kd) is not None else None
+                ex = gread_opt(st, "v_exists")
+                okp = False
+                why = "request kind unknown"
+                if kn == "Wrq":
+                    ro = server_field(eng, st, fr, "read_only")
+                    ow = server_field(eng, st, fr, "overwrite")
+                    ro0 = ro is not None and ro[0] == "i" and st.ctx.entails_eq(ro[1], lin.const(0))
+                    nx = ex is not None and ex[0] == "i" and st.ctx.entails_eq(ex[1], lin.const(0))
+                    owt = ow is not None and ow[0] == "i" and st.ctx.entails(lin.le(lin.const(1), ow[1]))
+                    okp = ro0 and (nx or owt)
+                    why = ("server may be read-only" if not ro0 else "target may exist while overwrite is off")
+                elif kn == "Rrq":
+                    okp = ex is not None and ex[0] == "i" and st.ctx.entails(lin.le(lin.const(1), ex[1]))
+                    why = "file may not exist"
+                eng.oblige(st, fr, bb, "ghost:policy", "%s only when the access policy allows the request" % base, okp,
+                           "" if okp else "%s is reachable although the %s" % (base, why))
+                if base == "std::thread::spawn":
+                    gwrite(eng, st, "spawned", ICONST(1))
         if (base.startswith(GUARDED_PREFIX) and base not in PURE_FS) or base in GUARDED_EXACT:
             vc = gread_opt(st, "v_contains")
             va = gread_opt(st, "v_any")
@@ -202,6 +271,9 @@ def install(eng):
         elif base == "std::iter::Iterator::any":
             root, path, ti = eng.resolve(st, fr, t["dest"])
             gwrite(eng, st, "v_any", eng.read(st, root, path, ti))
+        elif base in ("std::path::Path::exists", "std::path::Path::try_exists", "std::path::Path::is_file"):
+            root, path, ti = eng.resolve(st, fr, t["dest"])
+            gwrite(eng, st, "v_exists", eng.read(st, root, path, ti))
 
     def gread_opt(st, name):
         d = st.store.get(G)
